@@ -3,7 +3,7 @@
    (TJPARAM_SAVEMARKERS is cast to JCOPY_OPTION; TJXOPT_COPYNONE forces JCOPYOPT_NONE).
    No proofs here. *)
 From Coq Require Import List ZArith Bool.
-From LJT Require Import gen.GenIccConst model.MarkerRT.
+From LJT Require Import gen.GenIccConst model.MarkerRT model.Icc.
 Import ListNotations.
 Local Open Scope Z_scope.
 
@@ -64,3 +64,19 @@ Definition copy_pipeline (setup_opt exec_opt : Z) (write_jfif write_adobe : bool
   | None => None
   | Some (_, ms, _) => Some (copy_execute exec_opt write_jfif write_adobe ms)
   end.
+
+(* tj3Transform, per transform: jcopy_markers_execute(...) followed by
+     if (this->iccBuf != NULL && this->iccSize != 0) jpeg_write_icc_profile(cinfo, iccBuf, iccSize);
+   TJ_TRANSFORM_ICC_UNCONDITIONAL (generated from the source) says whether that second statement
+   depends on the copy option.  icc_buf = [] stands for "no profile set with tj3SetICCProfile". *)
+Definition copies_app2 (opt : Z) : bool := (opt =? JCOPYOPT_ALL) || (opt =? JCOPYOPT_ICC).
+Definition tj_transform_extras (save_markers : Z) (copynone write_jfif write_adobe : bool)
+  (src : list saved) (icc_buf : list Z) : list segment :=
+  let opt := tj_execute_option save_markers copynone in
+  copy_execute opt write_jfif write_adobe src ++
+  (if (TJ_TRANSFORM_ICC_UNCONDITIONAL =? 1) || negb (copies_app2 opt) then
+     match icc_buf with
+     | [] => []
+     | _ => match write_icc icc_buf with Some segs => segs | None => [] end
+     end
+   else []).
